@@ -86,6 +86,8 @@ class RiverMetricToLossFunction:
         if not self._dict_input_metric:
             y_prediction = y_prediction.get('output', 0)
         _ = self._river_metric.update(y_true=y_true, y_pred=y_prediction)
-        loss_i = self._river_metric.get()
-        self._river_metric.revert(y_true=y_true, y_pred=y_prediction)
+        try:
+            loss_i = self._river_metric.get()
+        finally:  # a metric that cannot report a value for this pair must not keep the pair either
+            self._river_metric.revert(y_true=y_true, y_pred=y_prediction)
         return loss_i * self._sign
